@@ -266,6 +266,126 @@ example : isFramework 0x01020002 ∧ ¬ isFramework 0x7F020002 := by unfold isFr
 example : binary32 0x3F800000 = some (false, 2 ^ 23, 2 ^ 23) := by decide
 example : formatValue (fun _ => "") TYPE_FLOAT 0xBF800000 = .ok "-1.000000" := by rfl
 
+/-! ### the property as one statement, against the specification's `coerce` / `coerceText`
+
+`Spec.ResValue.coerce` (the meaning Android gives to a typed value, per type) and `coerceText` (its text
+in the conventions the property fixes) are defined in a file that imports nothing and never mention the
+model.  The per-type theorems above are instances; `format_value_android` is the whole dispatch. -/
+
+/-- The reviewer's chain lemma: for a 32-bit word `%08X` prints exactly its eight base-16 digits,
+    most significant first, through the digit table of `hex_chars` (so `reference/attribute/hex/
+    color_rendering` get their content from `android_prefix_iff`, `hex8_digits` and `hex_chars`). -/
+theorem hexW_eight_digits (d : Nat) (h : d < 2 ^ 32) :
+    hexW true 8 d = String.ofList ((fixedDigits 8 d).map (hexChar true)) :=
+  hexW_eight d h
+
+/-- The two independent formulations of "nearest multiple of 10⁻⁶, ties to even" coincide. -/
+theorem rounding_formulations_agree (n d : Nat) (hd : 0 < d) :
+    roundMicro n d = roundHalfEven (n * 1000000) d :=
+  roundMicro_eq n d hd
+
+/-- **C27, every type and every 32-bit data word**: whenever the specification defines a text for
+    (type, data) — strings, references and attributes with the `android:` prefix, finite floats,
+    dimensions and fractions with a defined unit, hex, boolean, colours, signed decimals — `format_value`
+    returns exactly that text (and does not raise). -/
+theorem format_value_android (lookup : Nat → String) (t d : Nat) (h : d < 2 ^ 32) (s : String)
+    (hs : coerceText lookup (coerce t d) = some s) :
+    formatValue lookup t d = .ok s := by
+  have hx := hexW_hex8Text d h
+  have inv := kind_inv t
+  unfold coerce at hs
+  unfold formatValue
+  rw [dispatch_total]
+  cases hk : kind t <;> rw [hk] at hs <;> simp only at hs ⊢
+  · -- string
+    simp only [coerceText, Option.some.injEq] at hs; rw [← hs]
+  · -- attribute
+    simp only [coerceText, Option.some.injEq] at hs
+    rw [← hs, hx]; unfold fmtPackage; rw [AgVerif.Bits.shr]
+    by_cases hp : d / 2 ^ 24 = 1 <;> simp [hp]
+  · -- reference
+    simp only [coerceText, Option.some.injEq] at hs
+    rw [← hs, hx]; unfold fmtPackage; rw [AgVerif.Bits.shr]
+    by_cases hp : d / 2 ^ 24 = 1 <;> simp [hp]
+  · -- float
+    rw [if_pos h, floatBits_arith]
+    cases hb : binary32 d with
+    | none => rw [hb] at hs; simp [coerceText] at hs
+    | some v =>
+      obtain ⟨sg, n, k⟩ := v
+      rw [hb] at hs
+      simp only [coerceText, Option.some.injEq] at hs
+      rw [← hs, roundMicro_eq n k (binary32_den_pos d sg n k hb)]
+      simp only [fmtF, fmtF6_microText, String.append_empty]
+  · -- int hex
+    simp only [coerceText, Option.some.injEq] at hs; rw [← hs, hx]
+  · -- boolean
+    simp only [coerceText, Option.some.injEq] at hs
+    rw [← hs]; by_cases hz : d = 0 <;> simp [hz]
+  · -- dimension
+    have ht := inv.2.2.2.2.2.2.1 hk; subst ht
+    unfold complexMicro at hs
+    cases hu : Spec.ResValue.dimensionUnits[unit d]? with
+    | none => rw [hu] at hs; simp [coerceText] at hs
+    | some u =>
+      rw [hu] at hs
+      simp only [coerceText, Option.some.injEq] at hs
+      have := complex_spec lookup d u hu
+      have hk' : kind TYPE_DIMENSION = .dimension := hk
+      unfold formatValue at this
+      rw [dispatch_total, hk'] at this
+      simp only at this
+      rw [this, ← hs, Nat.mul_one, roundMicro_eq _ _ (complexDen_pos d), fmtF6_microText]
+  · -- fraction
+    have ht := inv.2.2.2.2.2.2.2 hk; subst ht
+    unfold complexMicro at hs
+    cases hu : Spec.ResValue.fractionUnits[unit d]? with
+    | none => rw [hu] at hs; simp [coerceText] at hs
+    | some u =>
+      rw [hu] at hs
+      simp only [coerceText, Option.some.injEq] at hs
+      have := fraction_spec lookup d u hu
+      have hk' : kind TYPE_FRACTION = .fraction := hk
+      unfold formatValue at this
+      rw [dispatch_total, hk'] at this
+      simp only at this
+      rw [this, ← hs, roundMicro_eq _ _ (complexDen_pos d), fmtF6_microText]
+  · -- colour
+    simp only [coerceText, Option.some.injEq] at hs; rw [← hs, hx]
+  · -- decimal
+    simp only [coerceText, Option.some.injEq] at hs
+    rw [← hs, (int_dec_signed d h).1]
+  · -- untyped
+    simp [coerceText] at hs
+
+/-- Where the specification defines no text: what the code does, for every word.
+    * `TYPE_FLOAT` infinities and NaNs (exponent field 255): the meaning is `nonFinite` and the code
+      prints CPython's `inf` / `-inf` / `nan` (no sign on NaN).  Android spells these `Infinity`/`NaN`;
+      the spelling is outside the property and is tied to CPython by the correspondence only. -/
+theorem float_nonfinite (lookup : Nat → String) (d : Nat) (h : d < 2 ^ 32) (he : d / 2 ^ 23 % 256 = 255) :
+    coerce TYPE_FLOAT d = .nonFinite (decide (d / 2 ^ 31 % 2 = 1)) (decide (d % 2 ^ 23 ≠ 0))
+    ∧ formatValue lookup TYPE_FLOAT d
+        = .ok (if d % 2 ^ 23 = 0 then (if d / 2 ^ 31 % 2 = 1 then "-inf" else "inf") else "nan") := by
+  have hb : binary32 d = none := by unfold binary32; simp only; rw [if_pos he]
+  have hbr : branch TYPE_FLOAT = .float := by decide
+  have hk : kind TYPE_FLOAT = .float := by decide
+  constructor
+  · unfold coerce; rw [hk]; simp only; rw [hb]
+  · unfold formatValue; rw [hbr]; simp only
+    rw [if_pos h, floatBits_arith, hb]
+    simp only
+    by_cases hf : d % 2 ^ 23 = 0
+    · rw [if_pos hf, if_pos hf]
+      by_cases hsg : d / 2 ^ 31 % 2 = 1 <;> simp [hsg, fmtF]
+    · rw [if_neg hf, if_neg hf]; rfl
+
+example : coerceText (fun _ => "") (coerce TYPE_DIMENSION 0xFFFFFB00) = some "-5.000000px" := by decide +kernel
+example : coerceText (fun _ => "") (coerce TYPE_REFERENCE 0x01020002) = some "@android:01020002" := by decide +kernel
+example : coerce TYPE_FLOAT 0x7F800000 = .nonFinite false false ∧ coerce TYPE_FLOAT 0xFFC00000 = .nonFinite true true := by
+  decide +kernel
+example : 0x7F800000 / 2 ^ 23 % 256 = 255 ∧ 0x7F800000 < 2 ^ 32 := by decide
+example : coerce 7 5 = .untyped ∧ coerce TYPE_DIMENSION 0x507 = .undefinedUnit := by decide +kernel
+
 /-! ### the source, translated, is the model
 AgVerif.Gen.PyResValue.complexToFloat is generated on each run from the Python source by
 gen/py2lean.py (statement by statement).  Floating point is not interpreted by the translator:
